@@ -244,23 +244,40 @@ def markers_job(rng, area, tag, stats_path):
             'encoding': '-', 'expect_ok': True}
 
 
-def validate_job(rng, area, tag, encoding='csr'):
+def validate_job(rng, area, tag, encoding='csr', layer='X', values='float',
+                 valid_path=None):
+    """values='float': needs rounding, so a validated file is written;
+    values='int' (+ layer 'X', proper gene ids): already valid, nothing is
+    to be written and None is returned.  valid_path: a FIXED output file
+    instead of output_dir/<name>_VALIDATED_<timestamp>.h5ad"""
     q = area.inp / (tag + '_q.h5ad')
     nprng = np.random.default_rng(rng.randrange(2 ** 31))
     n, g = rng.randint(3, 8), rng.randint(4, 8)
-    X = nprng.random((n, g)) * 10
+    if values == 'float':
+        X = nprng.random((n, g)) * 40
+    else:
+        X = nprng.integers(0, 60, (n, g)).astype(float)
+        X[0, 0] = 33.0
     pipeline.write_h5ad(q, X, ['c%d' % i for i in range(n)],
                         ['ENSMUSG%011d' % i for i in range(g)],
-                        encoding=encoding)
-    return {'stage': 'validate',
-            'job': {'stage': 'validate', 'h5ad_path': str(q),
-                    'tmp_dir': str(area.tmp), 'output_dir': str(area.out)},
+                        encoding=encoding,
+                        layer=None if layer == 'X' else layer)
+    job = {'stage': 'validate', 'h5ad_path': str(q),
+           'tmp_dir': str(area.tmp), 'layer': layer}
+    spec = {'stage': 'validate', 'job': job,
             'inputs': [str(q)], 'outputs': [],
-            'output_glob': re.escape(str(area.out)) + '/' + re.escape(tag)
-            + r'_q_VALIDATED_\d+\.h5ad$',
             'scratch': [str(area.tmp), str(area.systmp)],
             'failure': 'success',
-            'encoding': encoding, 'expect_ok': True}
+            'encoding': '%s/%s/%s' % (encoding, layer, values),
+            'expect_ok': True}
+    if valid_path is None:
+        job['output_dir'] = str(area.out)
+        spec['output_glob'] = re.escape(str(area.out)) + '/' + \
+            re.escape(tag) + r'_q_VALIDATED_\d+\.h5ad$'
+    else:
+        job['valid_h5ad_path'] = str(valid_path)
+        spec['outputs'] = [str(valid_path)]
+    return spec
 
 
 def election_inputs(rng, area, tag, encoding='dense', n_cells=None):
@@ -359,6 +376,21 @@ def result_of(spec):
                     key=lambda c: json.dumps(c, sort_keys=True))
             except Exception as e:
                 res['json_error'] = repr(e)
+        return res
+    if st == 'validate':
+        # what the caller gets back: the path handed back (None = "your file
+        # is fine, use it") and the content of the file at that path
+        ret = (spec.get('status') or {}).get('returned')
+        if ret is not None:
+            name = ret[0]
+            if name is not None:
+                res['validated'] = h5_digest(name) \
+                    if os.path.isfile(name) else 'missing'
+                name = re.sub(r'\d{6,}', 'N', os.path.basename(name))
+            res['returned'] = name
+        for o in spec['outputs']:
+            res['file_at_requested_path'] = h5_digest(o) \
+                if os.path.isfile(o) else None
         return res
     if st == 'mapping':
         cfg = spec['job']['config']
@@ -746,7 +778,8 @@ def history_mapping(ctx, rng, failure, encoding_hint=None, tmp_dir=True,
         compare_with_solo(ctx, good, hist, got, solo)
 
 
-def history_stages(ctx, rng, encoding='csr', twice=False):
+def history_stages(ctx, rng, encoding='csr', twice=False,
+                   fixed_valid=True):
     """precompute -> reference markers (on the fresh stats) and validate, all
     in the same scratch/output directories with stale files planted"""
     hist = 'stale+chain'
@@ -759,18 +792,38 @@ def history_stages(ctx, rng, encoding='csr', twice=False):
         def build_p(r, a):
             return precompute_job(r, a, 'p', encoding)
         p = build_p(rng, area)
+        v_layer = rng.choice(['X', 'X', 'raw_counts'])
         state_v = rng.getstate()
 
         def build_v(r, a):
-            return validate_job(r, a, 'v', encoding)
+            return validate_job(r, a, 'v', encoding, layer=v_layer)
         v = build_v(rng, area)
-        # precompute and validate do not depend on each other: run them
-        # concurrently, sharing the scratch and output directories
-        got = run_specs(ctx, area, [p, v], hist + ':precompute||validate')
+        # a second validation, to a FIXED valid_h5ad_path at which an
+        # earlier validation (of another sample) left its file: an input
+        # that is already valid must give None and no file, as in a pristine
+        # directory; one that needs reformatting must overwrite it
+        w_values = 'int' if fixed_valid else rng.choice(['int', 'float'])
+        rng_enc = rng.choice(['csr', 'csc', 'dense'])
+        state_w = rng.getstate()
+
+        def build_w(r, a):
+            return validate_job(r, a, 'w', rng_enc, values=w_values,
+                                valid_path=a.out / 'validated_fixed.h5ad')
+        w = build_w(rng, area)
+        stale_src = validate_job(rng, area, 'old', 'csr', values='float')
+        shutil.copy(stale_src['inputs'][0],
+                    area.out / 'validated_fixed.h5ad')
+        # precompute and the validations do not depend on each other: run
+        # them concurrently, sharing the scratch and output directories
+        got = run_specs(ctx, area, [p, v, w],
+                        hist + ':precompute||validate||validate-fixed')
         solos = solo_results(ctx, [(state, build_p, 'precompute'),
-                                   (state_v, build_v, 'validate')])
+                                   (state_v, build_v, 'validate'),
+                                   (state_w, build_w, 'validate')])
         compare_with_solo(ctx, p, hist, got[0], solos[0])
         compare_with_solo(ctx, v, hist, got[1], solos[1])
+        compare_with_solo(ctx, w, hist + ':validate-fixed', got[2],
+                          solos[2])
         if got[0][0]['ok']:
             stats = p['outputs'][0]
             m = markers_job(rng, area, 'm', stats)
@@ -908,9 +961,10 @@ def run(ctx):
         history_mapping(ctx, rng, fails[0], encoding_hint='csc')
         history_mapping(ctx, rng, 'unwritable_output', traced_all=False,
                         then_success=False)
-        history_stages(ctx, rng, rng.choice(['csr', 'dense']))
+        history_stages(ctx, rng, rng.choice(['csr', 'csc', 'dense']))
         history_pair(ctx, rng)
-        history_election(ctx, rng, rng.choice(['dense', 'csr']))
+        # CSC: the row iterator transcribes the query to CSR in scratch space
+        history_election(ctx, rng, 'csc')
     else:
         for i, f in enumerate(MAPPING_FAILURES):
             history_mapping(ctx, rng, f,
@@ -921,8 +975,9 @@ def run(ctx):
         history_mapping(ctx, rng, None, obsm=True)
         history_mapping(ctx, rng, 'negative_raw', obsm=True,
                         encoding_hint='csc')
-        for enc in ('csr', 'csc', 'dense'):
-            history_stages(ctx, rng, enc, twice=(enc == 'csr'))
+        for enc in ('csr', 'csc', 'dense', 'csc'):
+            history_stages(ctx, rng, enc, twice=(enc == 'csr'),
+                           fixed_valid=(enc != 'dense'))
         for i in range(10):
             history_pair(ctx, rng, n=2 if i < 8 else 3)
         for i, enc in enumerate(['dense', 'csr', 'csc', 'dense', 'csr',
